@@ -299,7 +299,7 @@ DAEMON_INV = ["D_AckRestoreEqualsSource", "D_FinalRestoreEqualsSource", "D_Every
 FAULT_KINDS = ["list", "open", "openmid", "write-before", "write-partial", "write-after", "delete-before", "delete-after"]
 
 
-def daemon_cases(seed, n, first_id=0, steps=(40, 90), faults="some", loss=False, restarts=True, loss_modes=("all",)):
+def daemon_cases(seed, n, first_id=0, steps=(40, 90), faults="some", loss=False, restarts=True, loss_modes=("all",), store_ops=True):
     """faults: "none" | "some" (every third case) | "all": storage faults armed in bursts while the monitors run
     loss: local level-0 files vanish / are truncated under the running daemon (auto-recovery on in two cases of three)"""
     rnd = random.Random(seed * 7793 + 17)
@@ -339,7 +339,7 @@ def daemon_cases(seed, n, first_id=0, steps=(40, 90), faults="some", loss=False,
             elif x < 0.84 and rich:
                 # a long application reader pins the WAL for a while
                 sched += [["ReaderOpen"]] + [rnd.choice([["AppWrite", rnd.randint(1, 6)], ["Sleep", rnd.randint(5, 40)], ["AppGrow", 1]]) for _ in range(rnd.randint(1, 4))] + [["ReaderClose"]]
-            elif x < 0.855 and rich:
+            elif x < 0.855 and rich and store_ops:
                 # the daemon disables and re-enables the database while its monitors keep running
                 sched += [["StDisable"]] + [rnd.choice([["AppWrite", rnd.randint(1, 6)], ["Sleep", rnd.randint(5, 30)], ["AppCheckpoint", "TRUNCATE"]]) for _ in range(rnd.randint(0, 3))] + [["StEnable"]]
             elif x < 0.87:
